@@ -4,10 +4,10 @@ from engine import desc as D
 
 EXPLANATION = ("Static rules over quinn-proto/quinn MIR: (a) the rejection branch (has_0rtt && !early_data_accepted) must-calls: accepted_0rtt = false, "
                "streams.zero_rtt_rejected(), pending = Retransmits::default(), drain of the Data-space sent packets with remove_in_flight; the acceptance branch "
-               "validates the resumed parameters before applying the new ones; (b) UNDO-COVERS-DO on StreamsState: every field written (transitively) by the "
+               "validates the resumed parameters before applying the new ones; the `pending = default()` store is the last write to a packet space's pending set on the rejection branch (nothing is re-queued while the early packets are dropped); (b) UNDO-COVERS-DO on StreamsState: every field written (transitively) by the "
                "operations available before the handshake completes (open, write, finish, reset, set_priority, set_params with remembered parameters) is written by "
                "zero_rtt_rejected or plainly re-initialised by the following set_params, except single named fields with a reason; (c) Retry re-queues every early "
-               "stream unconditionally (rewinds its SendBuffer) and the packets' control frames; (d) remembered parameters: non-cacheable fields blanked in init_0rtt; "
+               "stream unconditionally (rewinds its SendBuffer) and the packets' control frames; a stream in SendState::DataSent (FIN already sent in 0-RTT, possibly without data) is never skipped and gets fin_pending set again; every rewound stream is queued unless is_pending(), sampled before the rewind / FIN mark; (d) remembered parameters: non-cacheable fields blanked in init_0rtt; "
                "servers never send 0-RTT; 0-RTT packets carry no ACK/CRYPTO/HANDSHAKE_DONE; (e) async mapping: stream operations of 0-RTT streams consult check_0rtt "
                "(shared with C11.e) and blocked tasks are woken on Connected; EVERY site of the async layer that hands the id of a stream handle to the protocol stream accessors "
                "(Connection::send_stream / recv_stream; includes the implicit finish/stop of Drop) is unreachable when the handle's is_0rtt mark is set and check_0rtt() "
@@ -138,6 +138,23 @@ def rule_a(ctx):
                     okp = path_avoiding(pdp, [t_rej], join, {w.bb for w in pend}) is None
                 ctx.check(okp, 'a', 'rejection_discards_queued_frames', pdp, z.where(), 'spaces[Data].pending = Retransmits::default() on every rejection path',
                           'frames queued during 0-RTT (e.g. STOP_SENDING, RESET_STREAM for early streams) survive the rejection and leak into the fresh connection')
+                # ... and nothing is put back afterwards: on every rejection path that store is the LAST write to a `pending` of a packet space
+                # before the acceptance path is rejoined (e.g. `pending |= info.retransmits` while the early packets are dropped re-queues
+                # the control frames they carried: that is the Retry treatment, not the rejection one)
+                dflt = [w for w in pend if 'default' in D.render(d.rvalue(w.rv, w.bb, w.idx, 0) if w.rv else d.call_desc(w.call, 0))]
+                dbb = {w.bb for w in dflt}
+                r_rej = pdp.reachable_from(t_rej, avoid=join + [br.bb])
+                after_discard = lambda bb, idx: (bb in r_rej and ((bb in dbb and any(idx > w.idx for w in dflt if w.bb == bb)) or
+                                                                  (bb not in dbb and path_avoiding(pdp, [bb], join, dbb) is not None)))
+                requeue = [w for w in field_writes(F, 'PacketSpace', 'pending', crate='quinn_proto')
+                           if w.body.id == pdp.id and not any(w.bb == x.bb and w.idx == x.idx for x in dflt) and after_discard(w.bb, w.idx)]
+                writers = {F.root_of(w.body).id for w in field_writes(F, 'PacketSpace', 'pending', crate='quinn_proto')} - {pdp.id}
+                via = [(k, t) for k, t in F.callees(pdp, through_virtual=False) if t.crate == 'quinn_proto' and after_discard(k.bb, term_idx(pdp, k.bb))
+                       and writers & set(closure_bodies(F, [t], depth=3))]
+                ctx.check(bool(dflt) and not requeue and not via, 'a', 'rejection_discard_is_final', pdp, (requeue[0] if requeue else via[0][0] if via else z).where(),
+                          'no write to PacketSpace.pending between `pending = Retransmits::default()` and the end of the rejection branch',
+                          'frames are queued again after the rejection branch emptied spaces[Data].pending (%s): control frames of the rejected early packets (STOP_SENDING, RESET_STREAM, MAX_*) '
+                          'are replayed on the fresh connection' % ('; '.join(['%s at %s' % (w.kind, w.where()) for w in requeue[:3]] + ['via %s' % t.short for k, t in via[:3]]) or 'no default store'))
                 ctx.floor('a', 'acceptance_join_sites', len(join), 1)
                 # accepted_0rtt: `false` on every rejection path, `true` on every acceptance path (or the test result itself, stored before the branch)
                 acc = store_values(ctx, 'connection::Connection', 'accepted_0rtt', in_fn=pdp)
@@ -463,7 +480,7 @@ PROTO_STREAM_ACCESSORS = ['quinn_proto::Connection::send_stream', 'quinn_proto::
 UNGUARDED_HANDLE_OPS = {}
 
 
-_ENVS = {}
+_ENVS = __import__('engine.facts', fromlist=['register_memo']).register_memo({})
 
 
 def captured_value(F, body, d):
@@ -523,10 +540,16 @@ def _live_defs(body, d, local, reach, seen=()):
 
 
 def scenario_reach(F, body, is_mark, mark, check, avoid=()):
-    """blocks reachable from the entry in the scenario: the handle's early mark is `mark`, every check_0rtt() call
-    returns `check` ('ok' | 'err' | None = not constrained).  Branches whose bool discriminant is decided by the scenario
+    return scenario_cut(F, body, is_mark, mark, check, avoid)[0]
+
+
+def scenario_cut(F, body, is_mark, mark, check, avoid=(), discr_cut=None, decide=None):
+    """(blocks reachable from the entry, {branch block: feasible successors}) in the scenario: the handle's early mark is `mark`,
+    every check_0rtt() call returns `check` ('ok' | 'err' | None = not constrained).  Branches whose bool discriminant is decided by the scenario
     (modulo `!`, `== true/false`, is_err/is_ok/map_err/match of the check result, and bools materialised in a local all of whose
-    definitions that can be live in the scenario agree) only take the consistent edge."""
+    definitions that can be live in the scenario agree) only take the consistent edge.
+    discr_cut(Branch) -> feasible targets of a branch on an enum discriminant fixed by the scenario (or None);
+    decide(desc) -> truth of a (normalised) bool descriptor fixed by the scenario (or None)."""
     d = describer(F, body)
 
     def ev(x):
@@ -538,6 +561,8 @@ def scenario_reach(F, body, is_mark, mark, check, avoid=()):
             v = const_bool(inner, True)
         elif is_mark(inner):
             v = mark
+        elif decide is not None and decide(inner) is not None:
+            v = decide(inner)
         elif check and inner[0] == 'call' and inner[1] in ('Result::is_err', 'Result::is_ok') and inner[3] and _is_check(inner[3][0]):
             v = (check == 'err') == (inner[1] == 'Result::is_err')
         return None if v is None else (v != neg)
@@ -546,6 +571,10 @@ def scenario_reach(F, body, is_mark, mark, check, avoid=()):
         cut = {}
         for br in branches(F, body):
             if br.desc[0] == 'discr':
+                ts = discr_cut(br) if discr_cut is not None else None
+                if ts is not None:
+                    cut[br.bb] = ts
+                    continue
                 if check and _is_check(br.desc[1]):
                     ok_t = br.target(0)
                     cut[br.bb] = [ok_t] if check == 'ok' else sorted({t for _, t in br.edges if t != ok_t})
@@ -563,7 +592,7 @@ def scenario_reach(F, body, is_mark, mark, check, avoid=()):
         if r == reach:
             break
         reach = r
-    return reach
+    return reach, cut
 
 
 def reach_cut(body, cut, avoid=()):
@@ -576,6 +605,108 @@ def reach_cut(body, cut, avoid=()):
         seen.add(x)
         stack.extend(cut[x] if x in cut else body.succ[x])
     return seen
+
+
+# ---------------------------------------------------------------------------------------------------------------
+# (c) Retry: a stream whose FIN already left in a 0-RTT packet (SendState::DataSent; with no data it is "fully acked" and no longer
+# fin_pending, i.e. looks like a stream nothing was sent on) is rewound like every other early stream AND gets its FIN queued again;
+# every rewound stream is put on the pending queue unless it already was there, which is sampled BEFORE the rewind / the FIN mark
+# make is_pending() true.
+SEND_ADT, SEND_STATE_ADT, FIN_SENT_VARIANT = 'send::Send', 'send::SendState', 'DataSent'
+
+
+def _op_truth(F, body, op, bb, idx, reach, ev):
+    """truth of a bool operand in a scenario (`reach` = its blocks, ev = truth of a descriptor): a plain local is judged on its
+    definitions that are live in the scenario"""
+    d = describer(F, body)
+    if op[0] in ('c', 'm') and not op[1][1]:
+        vals = {ev(x) for x in _live_defs(body, d, op[1][0], reach)}
+        if len(vals) == 1 and None not in vals:
+            return vals.pop()
+    return ev(d.operand(op, bb, idx))
+
+
+def rule_c_finished(ctx):
+    F = ctx.facts
+    r0 = ctx.pfn('StreamsState::retransmit_all_for_0rtt')
+    d = describer(F, r0)
+    fin_sent = [int(v['discr']) for v in F.adt(SEND_STATE_ADT)['variants'] if v['name'] == FIN_SENT_VARIANT]
+    ctx.floor('c', 'fin_sent_state', len(fin_sent), 1)
+    rw = [c for c in r0.calls_to('SendBuffer::retransmit_all_for_0rtt') if not is_noise(c)]
+    rets = set(r0.return_blocks())
+    for c in rw if fin_sent else []:
+        recv = arg_desc(F, c, 0)
+        S = recv[1] if recv[0] == 'field' and recv[2] == 'pending' else None       # the Send whose buffer is rewound
+        # where this stream starts to exist: the present-entry edge of the innermost lookup test its descriptor hangs on
+        looks = [x[1] for x in walk(S) if x[0] == 'variant' and x[2] == 'Some'] if S else []
+        lb = [br for br in branches(F, r0) if br.desc[0] == 'discr' and br.desc[1] in looks and r0.dominates(br.bb, c.bb)]
+        lb = [br for br in lb if all(r0.dominates(o.bb, br.bb) for o in lb)]
+        if not lb:
+            ctx.bad('c', 'finished_stream_rewound', r0, c.where(), 'the stream rewound after a Retry (%s) is not taken from a lookup whose present-entry edge can be followed: obligation cannot be placed' % D.render(recv)[:80])
+            continue
+        start = lb[0].target(1)
+        stops = {b for b in r0.live_blocks() if b != start and r0.dominates(b, start)} | rets      # next iteration / return
+        state = ('field', S, 'state')
+
+        def dc(br):
+            return [br.target(fin_sent[0])] if br.desc[1] == state else None
+
+        def decide(x):
+            if x[0] == 'bin' and x[1] in ('Eq', 'Ne'):
+                for a, b in ((x[2], x[3]), (x[3], x[2])):
+                    if a == ('discr', state) and b[0] == 'const' and b[1] == 'int':
+                        return (str(b[2]) == str(fin_sent[0])) == (x[1] == 'Eq')
+            return None
+        reach, cut = scenario_cut(F, r0, lambda x: False, False, None, discr_cut=dc, decide=decide)
+        # (i) never skipped
+        p = path_avoiding_cut(r0, [start], stops, {c.bb}, cut)
+        ctx.check(p is None, 'c', 'finished_stream_rewound', r0, c.where(), 'state == %s: every way from the lookup to the next stream passes the rewind' % FIN_SENT_VARIANT,
+                  'a stream finished in 0-RTT (SendState::%s; without data it is fully acked and not fin_pending once the FIN left) is skipped by the Retry rewind: its FIN is never sent again: %s' % (FIN_SENT_VARIANT, fmt_path(r0, p)))
+        # (ii) its FIN is queued again: a store of `true` (in this scenario) to the fin_pending of the same stream, in the same iteration as the rewind
+        def ev(x):
+            if x is None:
+                return None
+            inner, neg = bool_norm(x)
+            v = True if const_bool(inner, True) else False if const_bool(inner, False) else decide(inner)
+            return None if v is None else (v != neg)
+        marks, fin_true = [], set()
+        for w in field_writes(F, SEND_ADT, 'fin_pending', crate='quinn_proto'):
+            if w.body.id != r0.id or w.kind != 'assign' or w.place[1][-1][:2] != ['f', 'fin_pending'] or w.bb not in reach:
+                continue
+            if d.place([w.place[0], w.place[1][:-1]], w.bb, w.idx) != S:
+                continue
+            marks.append(w)
+            rv = w.rv
+            if rv[0] == 'use':
+                t = _op_truth(F, r0, rv[1], w.bb, w.idx, reach, ev)
+            elif rv[0] == 'bin' and rv[1] == 'BitOr':
+                ts = [_op_truth(F, r0, o, w.bb, w.idx, reach, ev) for o in rv[2:4]]
+                t = True if True in ts else None
+            else:
+                t = None
+            if t:
+                fin_true.add(w.bb)
+        okf = bool(fin_true) and (c.bb in fin_true or path_avoiding_cut(r0, [start], [c.bb], fin_true, cut) is None
+                                  or path_avoiding_cut(r0, r0.succ[c.bb], stops, fin_true, cut) is None)
+        ctx.check(okf, 'c', 'finished_stream_fin_requeued', r0, c.where(), 'state == %s: fin_pending of the rewound stream is set on every way through the rewind' % FIN_SENT_VARIANT,
+                  'the Retry rewind does not set fin_pending again for a stream finished in 0-RTT (SendState::%s): the FIN that left in the abandoned 0-RTT packet is never retransmitted' % FIN_SENT_VARIANT)
+        # (iii) every rewound stream is queued unless is_pending() said it already is ...
+        tests = [(br, t, f) for br, t, f in bool_call_edges(F, r0, 'Send::is_pending') if bool_norm(br.desc)[0][3] and bool_norm(br.desc)[0][3][0] == S]
+        qcut = {br.bb: [f] for br, t, f in tests}
+        push = {k.bb for k in r0.calls_to('PendingStreamsQueue::push_pending')}
+        okq = bool(push) and (path_avoiding_cut(r0, [start], [c.bb], push, qcut) is None or path_avoiding_cut(r0, r0.succ[c.bb], stops, push, qcut) is None)
+        ctx.check(okq, 'c', 'rewound_stream_queued', r0, c.where(), 'every rewound stream whose is_pending() is false goes through push_pending',
+                  'a stream rewound after a Retry is not put on the pending queue although is_pending() was false: its data / FIN is never scheduled')
+        # ... and is_pending() is sampled before the rewind and the FIN mark make it true
+        late = []
+        for k in r0.calls_to('Send::is_pending'):
+            if arg_desc(F, k, 0) != S:
+                continue
+            for m_bb, frm in [(c.bb, r0.succ[c.bb])] + [(w.bb, [w.bb]) for w in marks]:
+                if path_avoiding(r0, frm, [k.bb], stops) is not None:
+                    late.append(m_bb)
+        ctx.check(not late, 'c', 'queue_test_precedes_marking', r0, c.where(), 'is_pending() of the rewound stream is not evaluated after the rewind / a fin_pending store of the same iteration',
+                  'is_pending() is evaluated after the %s of the same stream: it then answers true for a stream that is not on the pending queue, which is never scheduled' % ('rewind' if c.bb in late else 'fin_pending store'))
 
 
 def rule_e_handles(ctx):
@@ -646,6 +777,7 @@ def run(ctx):
     rule_a(ctx)
     rule_b(ctx)
     rule_c(ctx)
+    rule_c_finished(ctx)
     rule_d(ctx)
     rule_e(ctx)
     rule_e_handles(ctx)
